@@ -127,10 +127,15 @@ def run(chk):
             rho0 = oqupy.operators.spin_dm("y+")
             if driver == "tempo":
                 sysm = oqupy.TimeDependentSystem(H, gammas=[G], lindblad_operators=[A])
+                if sh == 0.0:
+                    quiet(oqupy.compute_dynamics, sysm, initial_state=rho0, dt=dt, num_steps=2, start_time=s0 - 0.25, subdiv_limit=sub, progress_type="silent")
                 d = quiet(oqupy.Tempo(sysm, bath, par, rho0, s0).compute, s0 + N * dt + edge, progress_type="silent")
                 return list(d.times), np.array(d.states)
             if driver in ("pttempo", "controls", "correlations"):
                 sysm = oqupy.TimeDependentSystem(H, gammas=[G], lindblad_operators=[A])
+                if sh == 0.0 and it % 2 == 0:
+                    # in the unshifted frame the system object has already been used from another time origin (same time step)
+                    quiet(oqupy.compute_dynamics, sysm, initial_state=rho0, dt=dt, num_steps=2, start_time=s0 - 0.25, subdiv_limit=sub, progress_type="silent")
                 pt = quiet(oqupy.pt_tempo_compute, bath, s0, s0 + N * dt + 1e-9, parameters=par, progress_type="silent")
                 if driver == "pttempo":
                     d = quiet(oqupy.compute_dynamics, sysm, initial_state=rho0, process_tensor=pt, start_time=s0, subdiv_limit=sub, record_all=rec, progress_type="silent")
